@@ -19,7 +19,7 @@ func init() {
 	register(&Spec{
 		ID: "C15",
 		Decides: "every regular expression of the reference grammar, folded from its package-level parts, is anchored at both ends; the scheme, repository, tag, digest and path groups of the folded patterns can only contain their alphabet (no upper case in repositories, tags of 1–128 legal characters, digests ending in at least 32 hex digits, no ':' or '@' in layout paths, a non-empty lower-case scheme); " +
-			"the scheme used by the parsers comes from that grammar; SetTag/SetDigest/AddDigest write only tag, digest and the re-serialised reference; Docker Hub aliases are rewritten before the library/ prefix is decided; every scheme the parsers accept is known to the printer, the comparison functions and the client's scheme table (known finding D14).",
+			"the scheme used by the parsers comes from that grammar; SetTag/SetDigest/AddDigest write only tag, digest and the re-serialised reference; Docker Hub aliases are rewritten before the library/ prefix is decided; every scheme the parsers accept is known to the printer, the comparison functions and the client's scheme table (known finding D14); the printed form is not rewritten; no caller hands an input the reference parser refused to another parser of the package.",
 		NotCovered: "round trip and rejection over the whole language (ambiguity between host and first path component); host name parsing in config/host.go.",
 		Run:        runC15,
 	})
